@@ -123,6 +123,11 @@ class C18(Prop):
             ((0,), (0,), (1, 1), (1, 1), (1, 1), (1, 1), (1, 1), (1, 1), (1, 1), (0,), (1, 0), (1, 2), (1, 2), (1, 2), (1, 2), (1, 2),
              (2, 2), (2, 0), (3,), (2, 1)),
         ]
+        # fromdicts(<generator>): a lagging iterator re-reads an old record of the spill file, then the leader draws a new row
+        lag = ((0,), (0,), (1, 0), (1, 0), (1, 0), (1, 0), (1, 1), (1, 1), (1, 0), (1, 1), (1, 1), (1, 1), (1, 1), (1, 1), (0,),
+               (1, 2), (1, 2), (1, 2), (1, 2), (1, 2), (1, 2), (2, 0), (2, 1), (2, 2), (3,))
+        yield Case('df_hist', (5, lag))
+        yield Case('df_hist', (4, lag[:14] + ((3,),)))
         for ops in directed:
             for n, bs in ((3, 2), (5, 2), (4, 1), (2, 2), (2, 5)):
                 for cache in (True, False):
